@@ -48,8 +48,14 @@ def norm_term(t):
 def gen_atom(rng, names, rich, ctx):
     k = rng.random()
     v = rng.choice(names)
-    if k < 0.40:
+    if k < 0.375:
         return ["cmp", rng.choice(CMP), norm_term(scalar_term(rng, v, rich, ctx)), ["lit", rng.randint(0, 2)]]
+    if k < 0.40:
+        # identity-compared objects: a reference attribute against a bare variable (either operand order); the operator
+        # has to report the values that are NOT equal as well (a negation / a disjunction above it needs them)
+        w = rng.choice(names)
+        t, u = ["attr", ["var", v], "ref"], ["var", w]
+        return ["cmp", rng.choice(["==", "==", "!="]), t, u] if rng.random() < 0.6 else ["cmp", rng.choice(["==", "==", "!="]), u, t]
     if k < 0.62:
         w = rng.choice(names)
         return ["cmp", rng.choice(CMP), norm_term(scalar_term(rng, v, rich, ctx)),
@@ -73,17 +79,17 @@ def gen_atom(rng, names, rich, ctx):
         return ["pred", "AGreater", [["var", v], ["lit", rng.randint(0, 1)]]]
     if k < 0.95:
         return ["hastype", ["var", v], "Q"]
-    if k < 0.965:
+    if k < 0.96:
         # partially ordered operands: floats with NaN, frozensets (proper-subset order)
         w = rng.choice(names)
         if rng.random() < 0.5:
             return ["cmp", rng.choice(CMP), ["attr", ["var", v], "f"],
                     ["attr", ["var", w], "f"] if rng.random() < 0.5 else ["lit", rng.choice([0.0, 1.0, 2.5])]]
         return ["cmp", rng.choice(CMP), ["attr", ["var", v], "fs"], ["attr", ["var", w], "fs"]]
-    if k < 0.975:
+    if k < 0.968:
         w = rng.choice(names)
         return ["cmp", rng.choice(CMP), ["fn", "sum_ab", {"x": ["var", v], "y": ["var", w]}], ["lit", rng.randint(1, 4)]]
-    if k < 0.987:
+    if k < 0.992:
         # a method call / an index whose argument is itself a term over a (possibly different) variable
         w = rng.choice(names)
         arg = norm_term(scalar_term(rng, w, rich, ctx))
